@@ -2,6 +2,7 @@ package main
 
 import (
 	"fmt"
+	"go/token"
 	"go/types"
 	"sort"
 	"strings"
@@ -196,6 +197,12 @@ func seqReadViaComparator(p *Prog, fa *ssa.FieldAddr, cmps map[*ssa.Function]boo
 				}
 			case *ssa.Call:
 				if b, isB := x.Call.Value.(*ssa.Builtin); isB && b.Name() == "len" {
+					// the number of elements is not shared by versions that compare equal when Compare pads
+					// the shorter list: it may only guard a read that falls back to a constant when the
+					// element is absent (the padding Compare itself uses)
+					if !lenOnlyGuardsPaddedReads(x, v) {
+						return false
+					}
 					continue
 				}
 				g := x.Call.StaticCallee()
@@ -224,10 +231,100 @@ func seqReadViaComparator(p *Prog, fa *ssa.FieldAddr, cmps map[*ssa.Function]boo
 	return true
 }
 
+// lenOnlyGuardsPaddedReads: every use of len(seq) is a comparison idx < len(seq) whose branch does nothing
+// but load seq[idx] and join with a constant default
+func lenOnlyGuardsPaddedReads(lenCall *ssa.Call, seq ssa.Value) bool {
+	for _, ref := range *lenCall.Referrers() {
+		switch x := ref.(type) {
+		case *ssa.DebugRef:
+		case *ssa.BinOp:
+			inRangeOnTrue := false
+			switch {
+			case x.Op == token.LSS && x.Y == ssa.Value(lenCall), x.Op == token.GTR && x.X == ssa.Value(lenCall):
+				inRangeOnTrue = true
+			case x.Op == token.GEQ && x.Y == ssa.Value(lenCall), x.Op == token.LEQ && x.X == ssa.Value(lenCall):
+				inRangeOnTrue = false
+			default:
+				return false
+			}
+			for _, r2 := range *x.Referrers() {
+				iff, ok := r2.(*ssa.If)
+				if !ok {
+					if _, isDbg := r2.(*ssa.DebugRef); isDbg {
+						continue
+					}
+					return false
+				}
+				in, other := iff.Block().Succs[0], iff.Block().Succs[1]
+				if !inRangeOnTrue {
+					in, other = other, in
+				}
+				// the in-range block only loads the element and jumps to the join
+				if len(in.Succs) != 1 {
+					return false
+				}
+				join := in.Succs[0]
+				for _, ins := range in.Instrs {
+					switch y := ins.(type) {
+					case *ssa.IndexAddr:
+						if y.X != seq && !sameFieldLoad(y.X, seq) {
+							return false
+						}
+					case *ssa.UnOp, *ssa.FieldAddr, *ssa.Field, *ssa.Jump, *ssa.DebugRef:
+					default:
+						return false
+					}
+				}
+				if other != join {
+					// an empty block that jumps to the join
+					if len(other.Succs) != 1 || other.Succs[0] != join || len(other.Instrs) != 1 {
+						return false
+					}
+				}
+				// the join merges the element with a constant
+				merges := false
+				for _, ins := range join.Instrs {
+					ph, ok := ins.(*ssa.Phi)
+					if !ok {
+						break
+					}
+					nconst := 0
+					for _, e := range ph.Edges {
+						if _, isC := e.(*ssa.Const); isC {
+							nconst++
+						}
+					}
+					if nconst >= 1 {
+						merges = true
+					}
+				}
+				if !merges {
+					return false
+				}
+			}
+		default:
+			return false
+		}
+	}
+	return true
+}
+
+// sameFieldLoad: a and b are loads of the same field of the same struct pointer
+func sameFieldLoad(a, b ssa.Value) bool {
+	la, ok1 := a.(*ssa.UnOp)
+	lb, ok2 := b.(*ssa.UnOp)
+	if !ok1 || !ok2 {
+		return false
+	}
+	fa, ok1 := la.X.(*ssa.FieldAddr)
+	fb, ok2 := lb.X.(*ssa.FieldAddr)
+	return ok1 && ok2 && fa.X == fb.X && fa.Field == fb.Field
+}
+
 // probeExceptions: named, documented exceptions (DESIGN 5, C20)
 var probeExceptions = map[string]string{
-	"pkg/ecosystem/pypi.(constraint).matches":    "pypi '===' is documented to compare text and is scoped out by the property",
-	"pkg/ecosystem/gem.satisfiesPessimistic":     "gem '~>' reads the probe's numeric segments with the same zero padding Compare uses",
+	"pkg/ecosystem/pypi.(constraint).matches":               "pypi '===' is documented to compare text and is scoped out by the property",
+	"pkg/ecosystem/gem.satisfiesPessimistic":                "gem '~>' reads the probe's numeric segments with the same zero padding Compare uses",
 	"pkg/ecosystem/gem.(Version).splitNumericAndPrerelease": "helper of gem '~>' (see satisfiesPessimistic)",
 }
 
